@@ -37,6 +37,7 @@ def outStr : Out → String
   | .errKey => "err:KeyError"
   | .closed => "closed"
   | .misuse => "misuse"
+  | .errCallback => "err:Callback"
 
 def insSorted {α} (k : Nat) (v : α) : List (Nat × α) → List (Nat × α)
   | [] => [(k, v)]
@@ -150,6 +151,20 @@ def drvStep (st : Drv) (toks : List String) : Drv × String :=
   | ["save"] => ({ st with saved := st.cur }, "ok")
   | ["restore"] => ({ st with cur := st.saved }, "ok")
   | ["obs"] => (st, obsDS st.cur)
+  | ["finishcb", t] =>
+    match t.toNat? with
+    | none => (st, "bad-op")
+    | some t =>
+      match st.cur with
+      | .file s => let r := doFinishCb s t; ({ st with cur := .file r.1 }, outStr r.2.2 ++ " " ++ dataClass s.pos r.2.1)
+      | .mapping m => let r := Mapping.doFinishCb m t; ({ st with cur := .mapping r.1 }, outStr r.2)
+      | .demoFile d =>
+        let c := doFinishCb d.changes t
+        let r := Demo.doFinishCb d t (c.1, c.2.2)
+        ({ st with cur := .demoFile r.1 }, outStr r.2)
+      | .demoMapping d =>
+        let r := Demo.doFinishCb d t (Mapping.doFinishCb d.changes t)
+        ({ st with cur := .demoMapping r.1 }, outStr r.2)
   | _ =>
     match parseOp toks with
     | some op => let r := stepDS st.cur op; ({ st with cur := r.1 }, r.2)
